@@ -124,6 +124,9 @@ CORE = [
     "bnd.0:?:?,cst1.ne.2.0:?", "bnd.0:?:?,cst1.lt.2.0:?", "bnd.0:?:?,cst1.le.-3.0:?", "bnd.0:?:?,cst1.eq.2.0:?",
     "bnd.0:0:?,bnd.1:?:5,cst.le.1.0.-1.1:?", "bnd.0:?:4,bnd.1:-1:?,cst.ne.1.0.-2.1:?", "bnd.0:-2:?,bnd.1:?:3,cst.lt.2.0.-1.1:?",
     "bnd.0:?:6,bnd.1:0:?,cst.eq.1.0.1.1:?", "lb.0:?,ub.1:?,cst.le.-1.0.-1.1:?", "bnd.0:1:?,bnd.1:?:4,cst.eq.-2.0.3.1:1",
+    # disequations between two variables (unit coefficients) after an order / equality between them is known
+    "cst.le.1.0.-1.1:?,cst.ne.1.0.-1.1:?", "cst.eq.1.0.-1.1:0,cst.ne.1.0.-1.1:?", "bnd.0:?:5,asgk.1:5,cst.ne.1.0.-1.1:?", "cst.le.-1.0.1.1:?,cst.ne.-1.0.1.1:?",
+    "bnd.0:0:?,bnd.1:?:9,cst.le.1.0.-1.1:0,cst.ne.-1.0.1.1:?",
     # assignments and arithmetic
     "bnd.0:?:?,asg.1.2.0:?", "bnd.0:?:?,asg.0.-1.0:?", "bnd.0:?:?,bnd.1:0:3,asg2.0.2.0.-1.1:?", "cst.le.1.0.-1.1:?,asg.0.1.0:?",
     "cst.le.1.0.-1.1:?,asg.1.1.0:?,cst1.le.1.1:?", "bnd.0:?:?,bnd.1:1:3,ari.mul.0.0.1", "bnd.0:?:?,bnd.1:-3:-1,ari.sdiv.0.0.1",
